@@ -35,13 +35,27 @@ for s_i in range(nsetups):
     max_refl = int(rng.integers(0, 3))
     setup = arimgen.immersion_setup(rng, max_refl=max_refl, wall_points=int(rng.integers(40, 250)))
     for name, path in setup["paths"].items():
-        rg = arim.ray.RayGeometry.from_path(path, use_cache=bool(rng.integers(0, 2)))
-        n = rg.numinterfaces - 1
+        # the implementation is evaluated on one of three memory layouts of the rays (C order as traced,
+        # Fortran order as used by TFM, or the reversed path whose rays are Fortran-ordered by default); the
+        # model inputs always come from a C-ORDERED copy of the same rays, so a layout-dependent gather in
+        # RayGeometry or in the beamspread code shows up as a disagreement
+        layout = str(rng.choice(["C", "F", "reversed"]))
         vel = [float(v) for v in path.velocities]
+        if layout == "reversed":
+            rpath = path.reverse()
+            itfs, rays_c, rays_impl, vel = rpath.interfaces, path.rays.reverse(order="c"), rpath.rays, vel[::-1]
+        elif layout == "F":
+            itfs, rays_c, rays_impl = path.interfaces, path.rays, path.rays.to_fortran_order()
+        else:
+            itfs, rays_c, rays_impl = path.interfaces, path.rays, path.rays
+        assert rays_c.interior_indices.flags.c_contiguous
+        rg = arim.ray.RayGeometry(itfs, rays_c, use_cache=bool(rng.integers(0, 2)))
+        n = rg.numinterfaces - 1
         legs = [np.asarray(rg.inc_leg_size(k)) for k in range(1, n + 1)]
         thetas = [np.asarray(rg.conventional_inc_angle(k)) for k in range(1, n)]
-        impl = np.asarray(model.beamspread_2d_for_path(arim.ray.RayGeometry.from_path(path)))
-        impl_rev = np.asarray(model.reverse_beamspread_2d_for_path(arim.ray.RayGeometry.from_path(path)))
+        impl = np.asarray(model.beamspread_2d_for_path(arim.ray.RayGeometry(itfs, rays_impl)))
+        impl_rev = np.asarray(model.reverse_beamspread_2d_for_path(arim.ray.RayGeometry(itfs, rays_impl)))
+        chk.count(ray_layout=layout)
         ne, ng = impl.shape
         for i in range(ne):
             for j in range(ng):
@@ -49,7 +63,7 @@ for s_i in range(nsetups):
                     continue
                 xs = vel + [float(l[i, j]) for l in legs] + [float(t[i, j]) for t in thetas]
                 lines.append(f"{n} " + " ".join(fhex(x) for x in xs))
-                meta.append(dict(setup=s_i, path=name, i=i, j=j, legs_n=n, vel=vel,
+                meta.append(dict(setup=s_i, path=name, i=i, j=j, legs_n=n, vel=vel, ray_layout=layout,
                                  legs=[float(l[i, j]) for l in legs], thetas=[float(t[i, j]) for t in thetas],
                                  impl=float(impl[i, j]), impl_rev=float(impl_rev[i, j])))
                 chk.count(legs=n, modes=name)
